@@ -354,10 +354,13 @@ class UndocumentedSummaryPage(Page):
         for o in undoccedpublic:
             kind = o.kind
             assert kind is not None  # 'kind is None' makes the object invisible
-            tag(tags.li(
+            item = tags.li(
                 epydoc2stan.format_kind(kind), " - ",
                 tags.code(linker.taglink(o, self.filename))
-                ))
+                )
+            if isPrivate(o):
+                item(class_='private')
+            tag(item)
         return tag
 
 def summaryPages(system: model.System) -> Iterable[Type[Page]]:
